@@ -7,6 +7,7 @@ import (
 	"os"
 	"path/filepath"
 	"runtime/debug"
+	"runtime/pprof"
 	"sort"
 	"strings"
 	"time"
@@ -86,7 +87,13 @@ func main() {
 	smtlog := flag.String("smtlog", "", "log solver input to file")
 	paramStr := flag.String("params", "", "k=v,k=v harness parameters")
 	nsamples := flag.Int("samples", 0, "number of completed paths whose model is exported for translator validation")
+	cpuprof := flag.String("cpuprofile", "", "write cpu profile")
 	flag.Parse()
+	if *cpuprof != "" {
+		f, _ := os.Create(*cpuprof)
+		pprof.StartCPUProfile(f)
+		defer pprof.StopCPUProfile()
+	}
 	debug.SetGCPercent(400)
 
 	t0 := time.Now()
@@ -302,6 +309,9 @@ func main() {
 		os.WriteFile(*out, b, 0o644)
 	} else {
 		os.Stdout.Write(b)
+	}
+	if *cpuprof != "" {
+		pprof.StopCPUProfile()
 	}
 	os.Exit(exit)
 }
